@@ -140,6 +140,10 @@ type Opts struct {
 	Cap int
 	// ChunkA / ChunkB are the read chunkers of the endpoints (nil = all).
 	ChunkA, ChunkB Chunker
+	// EmptyReadsA / EmptyReadsB: the endpoint's Read reports (0, nil) once before each piece of data
+	// it hands out (io.Reader allows that, discourages it, and some wrappers do it); never twice in
+	// a row and only when data is there, so a caller that simply reads again always makes progress.
+	EmptyReadsA, EmptyReadsB bool
 }
 
 type pipe struct {
@@ -234,6 +238,8 @@ type End struct {
 	dead                 chan struct{}
 	deadOnce             sync.Once
 
+	emptyReads  bool // see Opts.EmptyReadsA
+	lastEmpty   bool
 	holdClose   chan struct{} // if set, the first Close returns only after ReleaseClose
 	closeHeld   bool
 	releaseOnce sync.Once
@@ -274,8 +280,8 @@ func New(o Opts) *Pair {
 	ab.cond.L = &ab.mu
 	ba := &pipe{cap: o.Cap}
 	ba.cond.L = &ba.mu
-	a := &End{Role: "client", out: ab, in: ba, chunk: o.ChunkA, dead: make(chan struct{})}
-	b := &End{Role: "server", out: ba, in: ab, chunk: o.ChunkB, dead: make(chan struct{})}
+	a := &End{Role: "client", out: ab, in: ba, chunk: o.ChunkA, dead: make(chan struct{}), emptyReads: o.EmptyReadsA}
+	b := &End{Role: "server", out: ba, in: ab, chunk: o.ChunkB, dead: make(chan struct{}), emptyReads: o.EmptyReadsB}
 	a.cond.L = &a.mu
 	b.cond.L = &b.mu
 	a.peer, b.peer = b, a
@@ -643,6 +649,12 @@ func (e *End) Read(b []byte) (n int, err error) {
 		p.cond.Wait()
 	}
 
+	if e.emptyReads && !e.lastEmpty {
+		e.lastEmpty = true
+		census.Bump()
+		return 0, nil
+	}
+	e.lastEmpty = false
 	lim := e.chunk.Next(len(p.buf), len(b))
 	if lim < 1 {
 		lim = 1
